@@ -86,7 +86,7 @@ fn collision_classes(dir: &Path, spec: &[Entry], pats: &[P], st: &mut Stats) -> 
                         s.extend(firing(&String::from_utf8_lossy(b), pats));
                     }
                 }
-                Kind::Dir(c) => s.extend(firing_beneath(c, pats)),
+                Kind::Dir(c) | Kind::Link(c) => s.extend(firing_beneath(c, pats)),
             }
         }
         s
@@ -108,7 +108,7 @@ fn collision_classes(dir: &Path, spec: &[Entry], pats: &[P], st: &mut Stats) -> 
                         seen_before.extend(f);
                     }
                 }
-                Kind::Dir(c) => {
+                Kind::Dir(c) | Kind::Link(c) => {
                     let beneath = firing_beneath(c, pats);
                     if beneath.intersection(&seen_before).next().is_some() {
                         collision = true;
@@ -158,7 +158,10 @@ pub fn c03_spec(check: &str, spec: &[Entry], pats: &[P], st: &mut Stats) -> Vec<
     let sc = Scratch::new("c03");
     let root = sc.path.join("tree");
     std::fs::create_dir_all(&root).unwrap();
-    tree::materialize(spec, &root);
+    tree::materialize_with_links(spec, &root, &sc.path.join("links"));
+    if tree::count(spec, &|e| matches!(e.kind, Kind::Link(_))) > 0 {
+        st.count("trees_with_symlinked_directory");
+    }
     let (collision, levels) = collision_classes(&root, spec, pats, st);
     if collision || levels >= 3 {
         st.nontrivial(&format!("{:?}", case));
@@ -191,6 +194,7 @@ pub fn summarize(spec: &[Entry]) -> Value {
             .map(|e| match &e.kind {
                 Kind::File(b) => json!({"file": e.name, "class": e.class, "bytes": b.len()}),
                 Kind::Dir(c) => json!({"dir": e.name, "entries": summarize(c)}),
+                Kind::Link(c) => json!({"symlink_to_dir": e.name, "entries": summarize(c)}),
             })
             .collect(),
     )
